@@ -171,6 +171,11 @@ pub fn c04(rng: &mut impl Rng, len: usize) -> Vec<Value> {
         if rng.gen_range(0..3) == 0 {
             flw.push(json!({"id": format!("f{}", ri), "res": r, "thr": [rng.gen_range(0..=6u64), 1], "I": *pick(rng, &[0u64, 500, 2000, 700])}));
         }
+        if rng.gen_range(0..5) == 0 {
+            // a throttling rule holds the caller inside build(): the entry is recorded when it returns
+            flw.push(json!({"id": format!("t{}", ri), "res": r, "calc": "direct", "ctl": "throttling",
+                "thr": [rng.gen_range(1..=5u64), 1], "I": 1000, "maxq": *pick(rng, &[0u64, 300, 1000])}));
+        }
         if rng.gen_range(0..4) == 0 {
             hot.push(hot_conc_rule(rng, format!("h{}", ri), r));
         }
